@@ -19,6 +19,8 @@ def _to_fmt(M, fmt):
     import scipy.sparse as sp
     if fmt == "dense":
         return M.copy()
+    if fmt == "denseF":          # column-major dense matrix (what `A.T` of a C-ordered array or LAPACK output looks like)
+        return np.asfortranarray(M.copy())
     if fmt == "csr":
         return sp.csr_matrix(M)
     if fmt == "csc":
@@ -82,7 +84,7 @@ def make_solver_problems(case):
     from pyiga import operators as O
     M = np.array(case["matrix"], dtype=np.float64)
     fmt, sym, spd = case["fmt"], bool(case["symmetric"]), bool(case["spd"])
-    prefix = "make_solver:%s:%s" % ("dense" if fmt == "dense" else "sparse", "spd" if spd else "symmetric" if sym else "general")
+    prefix = "make_solver:%s:%s" % ("dense" if fmt.startswith("dense") else "sparse", "spd" if spd else "symmetric" if sym else "general")
     B = _to_fmt(M, fmt)
     with warnings.catch_warnings():
         warnings.simplefilter("ignore")
@@ -96,6 +98,22 @@ def make_solver_problems(case):
         except Exception as e:
             return [("%s:exception:%s" % (prefix, _excname(e)), "make_solver(%s, %s) raised %r" % (fmt, kw, e), None, None)], {}
     probs, calls, worst = inverse_problems(prefix, S, M, case["forms"])
+    if not probs:
+        # the operand still is the matrix the caller passed, and a second solver built from the same object is again
+        # the inverse of that matrix
+        Bd = np.asarray(B.todense()) if hasattr(B, "todense") else np.asarray(B)
+        if not np.array_equal(Bd, M):
+            probs.append(("%s:mutates-input" % prefix, "make_solver(%s, %s) modified the matrix it was given" % (fmt, kw), None, None))
+        else:
+            with warnings.catch_warnings():
+                warnings.simplefilter("ignore")
+                try:
+                    S2 = O.make_solver(B, **kw)
+                    p2, c2, w2 = inverse_problems(prefix + ":second", S2, M, ["v"])
+                    probs += p2
+                    calls += c2
+                except Exception as e:
+                    probs.append(("%s:exception:%s" % (prefix, _excname(e)), "second make_solver on the same matrix raised %r" % (e,), None, None))
     issym, isspd = classify(M)
     return probs, {"calls": calls, "worst": worst, "digest": digest(M),
                    "nontrivial": bool(M.shape[0] >= 2 and np.count_nonzero(M - np.diag(np.diag(M))) > 0)}
@@ -105,6 +123,13 @@ def kron_solver_problems(case):
     from pyiga import operators as O
     mats = [np.array(m, dtype=np.float64) for m in case["matrices"]]
     Bs = [_to_fmt(m, f) for m, f in zip(mats, case["fmts"])]
+    if case.get("share"):
+        # equal factors are passed as ONE object (make_kronecker_solver(B, B)), as user code does
+        for i in range(len(Bs)):
+            for j in range(i):
+                if case["fmts"][i] == case["fmts"][j] and np.array_equal(mats[i], mats[j]):
+                    Bs[i] = Bs[j]
+                    break
     with warnings.catch_warnings():
         warnings.simplefilter("ignore")
         try:
@@ -113,6 +138,12 @@ def kron_solver_problems(case):
             return [("kron_solver:exception:%s" % _excname(e), "make_kronecker_solver(%s) raised %r" % (case["fmts"], e), None, None)], {}
     B = R.kron_all(mats)
     probs, calls, worst = inverse_problems("kron_solver", S, B, case["forms"])
+    if not probs:
+        for Bi, m in zip(Bs, mats):
+            Bd = np.asarray(Bi.todense()) if hasattr(Bi, "todense") else np.asarray(Bi)
+            if not np.array_equal(Bd, m):
+                probs.append(("kron_solver:mutates-input", "make_kronecker_solver(%s) modified a matrix it was given" % (case["fmts"],), None, None))
+                break
     return probs, {"calls": calls, "worst": worst, "digest": digest(B),
                    "nontrivial": bool(len(mats) >= 2 and min(m.shape[0] for m in mats) >= 2)}
 
